@@ -97,6 +97,88 @@ def _corrupt_reparent_hover(evs):
     return None
 
 
+def _has_focus(ret):
+    return ret.get("c") == "focus" or any(_has_focus(x) for x in ret.get("l", []))
+
+
+def _corrupt_nested_focus(evs):
+    """the focus-out of a widget that answers it with a focus command recorded twice (the change re-entered)"""
+    for e in evs:
+        if e.get("ev") == "step":
+            for i, o in enumerate(e["offers"]):
+                if o["cls"] == "fout" and _has_focus(o["ret"]):
+                    e["offers"].insert(i + 1, dict(o, ret={"c": "nil"}))
+                    return evs
+    return None
+
+
+def _corrupt_live_target(evs):
+    """a key whose capturing ancestor moved the focus without consuming it: the target-phase offer recorded as made to
+    the newly focused widget, the rest of the route unchanged"""
+    reset = evs[0]
+    lay = 1
+    for e in evs[1:]:
+        if e.get("ev") == "frame":
+            lay = e["lay"]
+        if e.get("ev") == "step" and e["in"]["t"] == "key":
+            cls = e["in"]["cls"]
+            fins = [o["w"] for o in e["offers"] if o["cls"] == "fin"]
+            mover = [o for o in e["offers"] if o["cls"] == cls and o["ph"] == "cap" and _has_focus(o["ret"])]
+            tgt = [o for o in e["offers"] if o["cls"] == cls and o["ph"] == "tgt"]
+            bub = [o["w"] for o in e["offers"] if o["cls"] == cls and o["ph"] == "bub"]
+            if fins and mover and tgt and tgt[0]["w"] != fins[-1] and not json.dumps([o["ret"] for o in e["offers"]]).count("consume"):
+                anc, w = [], reset["pars"][lay - 1][fins[-1] - 1]
+                while w > 0:
+                    anc.append(w)
+                    w = reset["pars"][lay - 1][w - 1]
+                if anc != bub:      # (else the corrupted record is the route of the new focus, which R1m allows)
+                    tgt[0]["w"] = fins[-1]
+                    return evs
+    return None
+
+
+def _corrupt_twice(evs):
+    """a capture-phase offer of a mouse event recorded twice"""
+    for e in evs:
+        if e.get("ev") == "step" and e["in"]["t"] == "mouse":
+            for i, o in enumerate(e["offers"]):
+                if o["cls"] == e["in"]["cls"] and o["ph"] == "cap" and not json.dumps(o["ret"]).count("consume"):
+                    e["offers"].insert(i, dict(o))
+                    return evs
+    return None
+
+
+def _corrupt_quit_in_frame(evs):
+    """an event dispatched after the frame in which a notification handler returned quit"""
+    for i, e in enumerate(evs):
+        if e.get("ev") == "frame" and json.dumps([o["ret"] for o in e["items"]]).count("quit") and i + 1 < len(evs) and evs[i + 1].get("ev") == "exit":
+            evs.insert(i + 1, {"ev": "step", "in": {"t": "key", "cls": "S"}, "offers": [{"w": 1, "ph": "tgt", "cls": "S", "ret": {"c": "nil"}}], "scn": e.get("scn")})
+            return evs
+    return None
+
+
+def _corrupt_undrawn_bubble(evs):
+    """the bubble offer to the root dropped from a key that the root captured while the focused widget is not in the frame"""
+    reset = evs[0]
+    lay = 1
+    for e in evs[1:]:
+        if e.get("ev") == "frame":
+            lay = e["lay"]
+        if e.get("ev") == "step" and e["in"]["t"] in ("key", "custom") and e["in"]["cls"] != "S":
+            cls = e["in"]["cls"]
+            d = [o for o in e["offers"] if o["cls"] == cls]
+            if len(d) == len(e["offers"]) and len(d) >= 3 and d[0]["w"] == 1 and d[0]["ph"] == "cap" and d[-1]["w"] == 1 and d[-1]["ph"] == "bub" \
+                    and not json.dumps([o["ret"] for o in d]).count("consume"):
+                w, absent = [o["w"] for o in d if o["ph"] == "tgt"][0], False
+                while w > 0:
+                    absent = absent or reset["lays"][lay - 1][w - 1]["hid"]
+                    w = reset["pars"][lay - 1][w - 1]
+                if absent:
+                    e["offers"] = e["offers"][:-1]
+                    return evs
+    return None
+
+
 def sig_of(rej, scn):
     why = rej.get("why")
     t = (rej.get("in") or {}).get("t", rej.get("op"))
@@ -112,6 +194,14 @@ def sig_of(rej, scn):
         ctx.append("after-terminal-focus-in")
     if t in ("mouse", "tfout", "frame") and exp.get("relaid"):
         ctx.append("reparented-since-pointer-moved")
+    if exp.get("held"):
+        # (a handler moved the focus while the event was on its way; says more than "since the last frame")
+        ctx = [x for x in ctx if x != "focus-moved-since-frame"] + ["focus-moved-during-dispatch"]
+    if exp.get("selfnest") and (why == "offer-twice" or (why or "").startswith("hover")):
+        # a widget on the chain draws a surface of its own inside its surface; the only context kept for these
+        ctx = ["self-nested-surface"]
+    if why == "event-after-quit" and exp.get("qtick"):
+        ctx.append("quit-returned-in-frame")
     return "C15:%s:%s:%s" % (t, why, "+".join(ctx))
 
 
@@ -129,8 +219,16 @@ def main(c):
         "trusted base: fake console, vaxis input parser (bytes -> events; checked by C02/C03), TLC, encoding/json",
         "whether a capturing *target* also sees the event in the capture phase is left open (optional offer)",
         "order between a focus-out and its focus-in, and position of notifications relative to the event's own offers, are left open",
-        "focus commands in the capture/target phase come with consume (otherwise the rest of the route is not defined by the property); "
-        "notification handlers return only redraw commands",
+        "a focus command returned without consume while the event is on its way: the whole route is that of ONE widget that held the "
+        "focus at some moment of the dispatch (which one is left open); only the handlers offered the event itself can consume it",
+        "a focus-out/focus-in handler that itself returns a focus command: the order in which the competing commands take effect (and so "
+        "who ends up focused) is left open; demanded: notifications in pairs (focus-out to the holder, focus-in to its successor), every "
+        "change paid for by one focus command returned before it, at least one change when a command names another widget than the holder",
+        "scripted focus answers to notifications are given once (re-armed by the driver between events): handlers that always hand the "
+        "focus on make any implementation loop",
+        "a quit returned by a notification handler while a frame is drawn ends the run with that frame: no further event is dispatched",
+        "a widget that draws a surface tagged with itself inside its own surface is one widget of the chain (the oracle knows widgets, "
+        "not surfaces); such an inner surface has the size and origin of the outer one",
         "layouts change geometry, z-order, which widgets are drawn at all (a widget that is not drawn is absent from the frame with "
         "its subtree) and which parent draws a widget (the same widget instance may be a child of different parents in different "
         "layouts); the tree that counts for the chain under the pointer, the hover set, the mouse route and the focus path is the tree "
@@ -140,44 +238,65 @@ def main(c):
         "not contain the focused widget may be followed by one focus change away from it (one focus-out, one focus-in), or by none",
         "refresh is observed as a full repaint of the frame (>= cols*rows printed cells) on a static screen",
     ]
+    models = None
     if not c.replay:
-        # the three negative controls run beside the exhaustive model (plain TLC runs; their bookkeeping is done here, in order)
+        # the negative controls and the model with scripted notification answers run beside the exhaustive model (plain
+        # TLC runs; their bookkeeping is done in join_models, in order); all of them run in the background while the
+        # driver and the trace validation work, and are joined before the verdict
         negs = [("MC_Routing_asfound.cfg", "the transcription of the unrepaired dispatch (path refreshed only at frames, every overlapping "
                  "sibling hit, enter on terminal focus-in)"),
                 ("MC_Routing_staletarget.cfg", "a dispatch whose target is the end of the path (and not the focused widget), on the tree "
                  "with an undrawn widget"),
                 ("MC_Routing_fastpath.cfg", "a hover update that keeps the old hit list when the deepest hit and the depth are unchanged, "
-                 "on the tab view whose pages hand a shared leaf over")]
+                 "on the tab view whose pages hand a shared leaf over"),
+                ("MC_Routing_reentrant.cfg", "a focus change that interprets the answer to the focus-out before it switches the focus "
+                 "(a focus command among it re-enters: two focus-outs to one widget)"),
+                ("MC_Routing_livetarget.cfg", "a dispatch that keeps the path it started on but reads the target when the target phase "
+                 "starts (a capturing ancestor moved the focus meanwhile)"),
+                ("MC_Routing_bubbleskip.cfg", "a bubble loop that starts below the last widget of the path whoever the target is (the root "
+                 "captures for an undrawn focus and is never bubbled to)"),
+                ("MC_Routing_consumeleak.cfg", "a consume returned for a focus notification stopping the event being routed"),
+                ("MC_Routing_dupself.cfg", "a widget that draws a surface of its own inside its surface listed once per surface in the hit "
+                 "list and the focus path")]
 
         def neg(cfg):
             md = os.path.join(c.scratch, "mc-" + cfg[:-4])
             rc, out = c._tlc(specs, "MC_Routing.tla", cfg, {}, 2, md, 3000, extra=("-noGenerateSpecTE",))
             shutil.rmtree(md, ignore_errors=True)
             return out
-        with cf.ThreadPoolExecutor(max_workers=3) as ex:
-            futs = [ex.submit(neg, cfg) for cfg, _ in negs]
-            ok, _ = c.model_check(specs, "MC_Routing.tla", "MC_Routing.cfg" if c.tier == "quick" else "MC_Routing_deep.cfg")
+        ex = cf.ThreadPoolExecutor(max_workers=len(negs) + 2)
+        main_f = ex.submit(c.model_check, specs, "MC_Routing.tla", "MC_Routing.cfg" if c.tier == "quick" else "MC_Routing_deep.cfg")
+        nested_f = ex.submit(c.model_check, specs, "MC_Routing.tla", "MC_Routing_nested.cfg", 4)
+        futs = [ex.submit(neg, cfg) for cfg, _ in negs]
+
+        def join_models():
+            ok, _ = main_f.result()
+            ok2, _ = nested_f.result()
             outs = [f.result() for f in futs]
-        if not ok:
-            raise vcheck.Inconclusive("MC_Routing: the exhaustive model did not complete without error (spec-level problem, not a verdict)")
-        for (cfg, what), out in zip(negs, outs):
-            m = re.search(r"(\d+) states generated, (\d+) distinct states found", out)
-            refuted = "Invariant Conforms is violated" in out
-            if not m or not (refuted or "No error has been found" in out):
-                vcheck.log(out[-4000:])
-                raise vcheck.Inconclusive("TLC model run failed: MC_Routing.tla/%s" % cfg)
-            st = {"model": "MC_Routing.tla", "cfg": cfg, "ok": not refuted, "transitions": int(m.group(1)), "states": int(m.group(2)),
-                  "note": "negative control: %s must be refuted (refuted=%s)" % (what, refuted)}
-            c.cov["states"] += st["states"]
-            c.cov["transitions"] += st["transitions"]
-            c.cov["models"].append(st)
-            if not refuted:
-                c.notes.append("negative control %s was NOT refuted" % cfg[:-4])
-    lap("models")
+            ex.shutdown()
+            if not (ok and ok2):
+                raise vcheck.Inconclusive("MC_Routing: an exhaustive model did not complete without error (spec-level problem, not a verdict)")
+            for (cfg, what), out in zip(negs, outs):
+                m = re.search(r"(\d+) states generated, (\d+) distinct states found", out)
+                refuted = "Invariant Conforms is violated" in out
+                if not m or not (refuted or "No error has been found" in out):
+                    vcheck.log(out[-4000:])
+                    raise vcheck.Inconclusive("TLC model run failed: MC_Routing.tla/%s" % cfg)
+                st = {"model": "MC_Routing.tla", "cfg": cfg, "ok": not refuted, "transitions": int(m.group(1)), "states": int(m.group(2)),
+                      "note": "negative control: %s must be refuted (refuted=%s)" % (what, refuted)}
+                c.cov["states"] += st["states"]
+                c.cov["transitions"] += st["transitions"]
+                c.cov["models"].append(st)
+                if not refuted:
+                    c.notes.append("negative control %s was NOT refuted" % cfg[:-4])
+        models = join_models
     td = c.drive(drv, "c15", replay=c.replay)
     lap("driver")
     rejects, _ = c.validate_traces(specs, "Routing_Trace.tla", "Routing_Trace.cfg", td)
     lap("trace_validation")
+    if models:
+        models()
+    lap("models_join")
     idx = c.load_index(td)
     c.count_distinct(idx, nontrivial=lambda s: s["nev"] > 3)
     kinds = {}
@@ -197,7 +316,9 @@ def main(c):
             c, specs, "Routing_Trace.tla", "Routing_Trace.cfg", td, {r["scn"] for r in rejects},
             [("offer-order", _corrupt_order), ("focus-out-dropped", _corrupt_focus), ("leave-dropped", _corrupt_hover),
              ("offer-after-consume", _corrupt_consume), ("target-of-undrawn-focus", _corrupt_undrawn_target),
-             ("hover-after-reparenting", _corrupt_reparent_hover)])
+             ("hover-after-reparenting", _corrupt_reparent_hover), ("focus-out-twice-in-nested-change", _corrupt_nested_focus),
+             ("target-after-focus-moved-in-capture", _corrupt_live_target), ("offer-twice", _corrupt_twice),
+             ("event-after-quit-in-frame", _corrupt_quit_in_frame), ("root-bubble-of-undrawn-focus", _corrupt_undrawn_bubble)])
     lap("binding_selftest")
     c.confirm(drv, "c15", specs, "Routing_Trace.tla", "Routing_Trace.cfg", cands, sig_of)
     lap("confirm")
@@ -218,4 +339,12 @@ def main(c):
              "pages on one rectangle with the holder on top, or side by side - with the pointer resting on each widget of m's subtree across "
              "the switch, then a key, every mouse class with its single consumer or none at the resting cell and at the new place, the "
              "switch back, terminal focus out/in and the pointer leaving; random-reparent / random-hidden-reparent: the random family with "
-             "random per-layout parents, half with a page pair handing a child over under the pointer; fixed corner cases; every sentinel key is itself a checked key dispatch; distinct = distinct descriptor")
+             "random per-layout parents, half with a page pair handing a child over under the pointer; nested-focus-*: every shape <=3 (quick; plus "
+             "1/16 of size 4; thorough <=4) x capture mask x widget c: the first focus-out (focus-in) handler after an arm answers with a focus "
+             "command for c, for every ordered pair (holder, newly focused) and three ways of focusing; midroute-*: per shape x mask every "
+             "focus position x capturing ancestor a x widget b: a's CaptureEvent (the target; the root bubbling) returns focus(b) without "
+             "consume, plain or with every focus-in (focus-out) handler returning consume; tick-*: a widget appearing / vanishing under a "
+             "resting pointer or vanishing while focused answers the notification the frame sends with quit, focus or consume; "
+             "route-selfnest: the route family on trees in which a set of widgets draws a surface of its own inside its surface; the random "
+             "families also return focus (one-shot), consume and quit from notification handlers and focus without consume from capture / "
+             "target handlers, a third of them with self-nested widgets; fixed corner cases; every sentinel key is itself a checked key dispatch; distinct = distinct descriptor")
